@@ -36,6 +36,11 @@ def groups(n, seed):
         pk = gen.random_params(rng, iteration_limit=60)
         gs.append({"tag": "C02.outside", "runs": [{"prob": ps, "params": pk, "x0_outside": float([0.5, 2.0, 7.0][i % 3]),
                                                    "obj_limit_at_start": [1.0, 0.0, 100.0][(i // 3) % 3]}]})
+    # a feasible problem whose only row is a genuine range of tiny relative width: no status but Optimal / a limit is justified
+    for i in range(max(3, n // 30)):
+        pk = gen.random_params(rng, iteration_limit=60)
+        gs.append({"tag": "C02.narrowrow", "runs": [{"prob": ("narrowrow", int(rng.integers(0, 2 ** 31)), [1000.0, 50.0, 2e5][i % 3]),
+                                                     "params": pk}]})
     # infeasible over the box, started outside the box on the side the violation gradient points to: LocallyInfeasible needs
     # stationarity over the box at the returned point, and a point outside the box is not "at" a bound
     from harness import sweep
